@@ -64,6 +64,9 @@ func judgeEnvelope(t *testing.T, sc EnvScript, relaxEmptyArrays bool) (key, msg 
 	var got []string
 	var herr string
 	if err := core.Bubble(t, func() { got, herr = runEnvelope(sc) }); err != nil {
+		if core.IsInconclusive(err) {
+			return "inconclusive", err.Error()
+		}
 		return "harness/bubble", err.Error()
 	}
 	if herr != "" {
@@ -123,6 +126,10 @@ func TestC07Envelope(t *testing.T) {
 			sc.Sides = append(sc.Sides, rapid.IntRange(0, 1).Draw(rt, "side"))
 		}
 		key, msg := judgeEnvelope(t, sc, relax)
+		if key == "inconclusive" {
+			st.AddInconclusive()
+			return
+		}
 		st.Case(sc, nt, "envelope")
 		if key != "" {
 			st.Fail(key, msg, sc)
